@@ -78,6 +78,18 @@ template <class S> struct ConstJac<manif::SO2<S>> { static const bool value = tr
 template <class S> struct ConstJac<manif::Rn<S, 3>> { static const bool value = true; };
 template <class S> struct ConstJac<manif::Bundle<S, manif::SE3, manif::SO2, manif::R3>> { static const bool value = true; };
 
+// how much of the operation table is instantiated for a group (compile time of the TSan build):
+// 2 = everything, 1 = no Jacobian-output variants / CUBIC / CNSMOOTH / operator aliases, 0 = short list
+template <class G> struct Level { static const int value = 2; };
+#ifndef C14_FULL
+template <class S> struct Level<manif::SE_2_3<S>> { static const int value = 1; };
+template <class S> struct Level<manif::SGal3<S>> { static const int value = 1; };
+template <class S> struct Level<manif::Bundle<S, manif::SE3, manif::SO2, manif::R3>> { static const int value = 1; };
+#endif
+template <> struct Level<manif::SO2f> { static const int value = 0; };
+template <> struct Level<manif::SE3f> { static const int value = 0; };
+template <> struct Level<manif::R3f> { static const int value = 0; };
+
 static const int NP = 4;  // pool entries per kind and group
 
 template <class G> struct Pool {
@@ -155,6 +167,21 @@ static const char* const CODE_NAME[N_CODES] = {
   "t+u", "t.generator", "t.innerWeights", "(-t).exp", "X==Y",
 };
 
+// minimal Level<G> at which an operation is instantiated for G
+inline int min_level(int code) {
+  switch (code) {
+    case H_IDENTITY: case H_SETIDENTITY: case H_ZERO: case H_INNERW: case H_GEN:
+    case O_ADJ: case O_RJAC: case O_LJAC: case O_SMALLADJ:
+    case O_EXP: case O_LOG: case O_COMPOSE: case O_ISAPPROX: case O_INTERP: case O_ACT: case O_RPLUS: case O_HAT: case O_INNER:
+      return 0;
+    case O_EXP_J: case O_LOG_J: case O_INVERSE_J: case O_COMPOSE_J: case O_RPLUS_J: case O_ACT_J:
+    case O_INTERP_CUBIC: case O_INTERP_SMOOTH: case O_OPMUL: case O_OPPLUS: case O_OPMINUS: case O_NEG_EXP:
+      return 2;
+    default:
+      return 1;
+  }
+}
+
 template <class G> uint64_t exec(int code, int a, int b, int c) {
   using T = typename G::Tangent;
   using J = typename G::Jacobian;
@@ -175,48 +202,59 @@ template <class G> uint64_t exec(int code, int a, int b, int c) {
     case O_RJAC: return hm(t.rjac());
     case O_LJAC: return hm(t.ljac());
     case O_SMALLADJ: return hm(t.smallAdj());
-    case O_RJACINV: return hm(t.rjacinv());
-    case O_LJACINV: return hm(t.ljacinv());
     case O_EXP: return hm(t.exp().coeffs());
-    case O_EXP_J: { J j; uint64_t h = hm(t.exp(j).coeffs()); return mix(h, hm(j)); }
     case O_LOG: return hm(X.log().coeffs());
-    case O_LOG_J: { J j; uint64_t h = hm(X.log(j).coeffs()); return mix(h, hm(j)); }
-    case O_INVERSE: return hm(X.inverse().coeffs());
-    case O_INVERSE_J: { J j; uint64_t h = hm(X.inverse(j).coeffs()); return mix(h, hm(j)); }
     case O_COMPOSE: return hm(X.compose(Y).coeffs());
-    case O_COMPOSE_J: { J j1, j2; uint64_t h = hm(X.compose(Y, j1, j2).coeffs()); return mix(mix(h, hm(j1)), hm(j2)); }
-    case O_BETWEEN: return hm(X.between(Y).coeffs());
     case O_RPLUS: return hm(X.rplus(u).coeffs());
-    case O_RPLUS_J: { J j1, j2; uint64_t h = hm(X.rplus(u, j1, j2).coeffs()); return mix(mix(h, hm(j1)), hm(j2)); }
-    case O_LPLUS: return hm(X.lplus(u).coeffs());
-    case O_RMINUS: return hm(X.rminus(Y).coeffs());
-    case O_LMINUS: return hm(X.lminus(Y).coeffs());
     case O_ACT: return hm(X.act(v));
-    case O_ACT_J: {
-      Eigen::Matrix<S, G::Dim, G::DoF> j1; Eigen::Matrix<S, G::Dim, G::Dim> j2;
-      uint64_t h = hm(X.act(v, j1, j2)); return mix(mix(h, hm(j1)), hm(j2));
-    }
     case O_HAT: return hm(t.hat());
-    case O_VEE: return hm(T::Vee(t.hat()).coeffs());
     case O_INNER: return hs<S>(t.inner(u));
-    case O_BRACKET: return hm(t.bracket(u).coeffs());
-    case O_WNORM: return mix(hs<S>(t.weightedNorm()), hs<S>(t.squaredWeightedNorm()));
-    case O_ISAPPROX: return mix(hb(X.isApprox(Y)), hb(X.isApprox(X)));
-    case O_TISAPPROX: return mix(hb(t.isApprox(u)), hb(t.isApprox(t)));
-    case O_INTERP: return hm(manif::interpolate(X, Y, S(0.3)).coeffs());
-    case O_INTERP_CUBIC: return hm(manif::interpolate(X, Y, S(0.3), manif::INTERP_METHOD::CUBIC).coeffs());
-    case O_INTERP_SMOOTH: return hm(manif::interpolate(X, Y, S(0.3), manif::INTERP_METHOD::CNSMOOTH).coeffs());
-    case O_TRANSFORM: return hm(X.transform());
-    case O_OPMUL: return hm((X * Y).coeffs());
-    case O_OPPLUS: return hm((X + u).coeffs());
-    case O_OPMINUS: return hm((X - Y).coeffs());
-    case O_TPLUS: return hm((t + u).coeffs());
-    case O_MEMBER_GEN: return hm(t.generator(c));
-    case O_MEMBER_INNERW: return hm(t.innerWeights());
-    case O_NEG_EXP: return hm((-t).exp().coeffs());
-    case O_EQ: return mix(hb(X == Y), hb(t == u));
-    default: return 0;
+    case O_ISAPPROX: return mix(hb(X.isApprox(Y)), hb(X.isApprox(X)));          // uses Tangent::Zero()
+    case O_INTERP: return hm(manif::interpolate(X, Y, S(0.3)).coeffs());      // default arguments use Tangent::Zero()
+    default: break;
   }
+  if constexpr (Level<G>::value >= 1) {
+    switch (code) {
+      case O_RJACINV: return hm(t.rjacinv());
+      case O_LJACINV: return hm(t.ljacinv());
+      case O_INVERSE: return hm(X.inverse().coeffs());
+      case O_BETWEEN: return hm(X.between(Y).coeffs());
+      case O_LPLUS: return hm(X.lplus(u).coeffs());
+      case O_RMINUS: return hm(X.rminus(Y).coeffs());
+      case O_LMINUS: return hm(X.lminus(Y).coeffs());
+      case O_VEE: return hm(T::Vee(t.hat()).coeffs());
+      case O_BRACKET: return hm(t.bracket(u).coeffs());
+      case O_WNORM: return mix(hs<S>(t.weightedNorm()), hs<S>(t.squaredWeightedNorm()));
+      case O_TISAPPROX: return mix(hb(t.isApprox(u)), hb(t.isApprox(t)));
+      case O_TRANSFORM: return hm(X.transform());
+      case O_TPLUS: return hm((t + u).coeffs());
+      case O_MEMBER_GEN: return hm(t.generator(c));
+      case O_MEMBER_INNERW: return hm(t.innerWeights());
+      case O_EQ: return mix(hb(X == Y), hb(t == u));
+      default: break;
+    }
+  }
+  if constexpr (Level<G>::value >= 2) {
+    switch (code) {
+      case O_EXP_J: { J j; uint64_t h = hm(t.exp(j).coeffs()); return mix(h, hm(j)); }
+      case O_LOG_J: { J j; uint64_t h = hm(X.log(j).coeffs()); return mix(h, hm(j)); }
+      case O_INVERSE_J: { J j; uint64_t h = hm(X.inverse(j).coeffs()); return mix(h, hm(j)); }
+      case O_COMPOSE_J: { J j1, j2; uint64_t h = hm(X.compose(Y, j1, j2).coeffs()); return mix(mix(h, hm(j1)), hm(j2)); }
+      case O_RPLUS_J: { J j1, j2; uint64_t h = hm(X.rplus(u, j1, j2).coeffs()); return mix(mix(h, hm(j1)), hm(j2)); }
+      case O_ACT_J: {
+        Eigen::Matrix<S, G::Dim, G::DoF> j1; Eigen::Matrix<S, G::Dim, G::Dim> j2;
+        uint64_t h = hm(X.act(v, j1, j2)); return mix(mix(h, hm(j1)), hm(j2));
+      }
+      case O_INTERP_CUBIC: return hm(manif::interpolate(X, Y, S(0.3), manif::INTERP_METHOD::CUBIC).coeffs());
+      case O_INTERP_SMOOTH: return hm(manif::interpolate(X, Y, S(0.3), manif::INTERP_METHOD::CNSMOOTH).coeffs());
+      case O_OPMUL: return hm((X * Y).coeffs());
+      case O_OPPLUS: return hm((X + u).coeffs());
+      case O_OPMINUS: return hm((X - Y).coeffs());
+      case O_NEG_EXP: return hm((-t).exp().coeffs());
+      default: break;
+    }
+  }
+  return 0;
 }
 
 // ------------------------------------------------------------------ operation table
@@ -235,12 +273,10 @@ static std::vector<void (*)(Lcg&)> BUILDERS;
 
 template <class G> void build_pool(Lcg& r) { pool<G>().build(r); }
 
-template <class G> void reg(const char* gname, bool full) {
+template <class G> void reg(const char* gname) {
   BUILDERS.push_back(&build_pool<G>);
   for (int code = 0; code < N_CODES; ++code) {
-    if (!full && code >= O_RJACINV && !(code == O_EXP || code == O_LOG || code == O_COMPOSE || code == O_ISAPPROX ||
-                                        code == O_INTERP || code == O_ACT || code == O_RPLUS || code == O_HAT || code == O_INNER))
-      continue;
+    if (min_level(code) > Level<G>::value) continue;
     int reps = code == H_GEN ? (int)G::DoF : 1;
     for (int i = 0; i < reps; ++i) {
       Entry e;
@@ -259,17 +295,17 @@ template <class G> void reg(const char* gname, bool full) {
 
 static void build_table() {
   using namespace manif;
-  reg<SO2d>("SO2d", true);
-  reg<SE2d>("SE2d", true);
-  reg<SO3d>("SO3d", true);
-  reg<SE3d>("SE3d", true);
-  reg<SE_2_3d>("SE_2_3d", true);
-  reg<SGal3d>("SGal3d", true);
-  reg<R3d>("R3d", true);
-  reg<Bundle<double, SE3, SO2, R3>>("Bundle<double,SE3,SO2,R3>", true);
-  reg<SO2f>("SO2f", false);
-  reg<SE3f>("SE3f", false);
-  reg<R3f>("R3f", false);
+  reg<SO2d>("SO2d");
+  reg<SE2d>("SE2d");
+  reg<SO3d>("SO3d");
+  reg<SE3d>("SE3d");
+  reg<SE_2_3d>("SE_2_3d");
+  reg<SGal3d>("SGal3d");
+  reg<R3d>("R3d");
+  reg<Bundle<double, SE3, SO2, R3>>("Bundle<double,SE3,SO2,R3>");
+  reg<SO2f>("SO2f");
+  reg<SE3f>("SE3f");
+  reg<R3f>("R3f");
 }
 
 // ------------------------------------------------------------------ thread programs
@@ -283,17 +319,20 @@ struct ThreadOut {          // written by exactly one thread; read by main after
 };
 
 static const int MAX_MEET = 96;
-static std::atomic<int> MEET[MAX_MEET + 1];   // relaxed rendezvous counters
-static std::atomic<int> GO;
+struct alignas(128) Counter { std::atomic<int> n; char pad[128 - sizeof(std::atomic<int>)]; };  // one cache line pair each
+static Counter MEET_[MAX_MEET + 1];   // relaxed rendezvous counters
+static Counter GO_;
+#define MEET(k) (MEET_[k].n)
+#define GO (GO_.n)
 
 static inline int64_t now_ns() {
   return std::chrono::duration_cast<std::chrono::nanoseconds>(std::chrono::steady_clock::now().time_since_epoch()).count();
 }
 
 static inline void meet(int k, int T) {
-  MEET[k].fetch_add(1, std::memory_order_relaxed);
+  MEET(k).fetch_add(1, std::memory_order_relaxed);
   unsigned spins = 0;
-  while (MEET[k].load(std::memory_order_relaxed) < T) {
+  while (MEET(k).load(std::memory_order_relaxed) < T) {
     if (++spins > 2000) { std::this_thread::yield(); spins = 0; }  // no sleeping; yield only under oversubscription
   }
 }
@@ -416,7 +455,7 @@ int main(int argc, char** argv) {
   const int H = (int)HELPERS.size();
   std::vector<ThreadOut> outs(T);
   for (int k = 0; k < T; ++k) { outs[k].res.reserve(L + 8); outs[k].t0.assign(H, -1); outs[k].t1.assign(H, -1); }
-  for (int i = 0; i <= MAX_MEET; ++i) MEET[i].store(0, std::memory_order_relaxed);
+  for (int i = 0; i <= MAX_MEET; ++i) MEET(i).store(0, std::memory_order_relaxed);
   GO.store(0, std::memory_order_relaxed);
 
   std::vector<std::thread> th;
